@@ -314,6 +314,8 @@ func (w *c10World) line(c *Ctx, in string) {
 		saved := w.realWorld
 		bw := newRealWorld("c10b")
 		w.realWorld = bw
+		var ackMu sync.Mutex
+		var acked []string
 		res := guardT(ms(60000), func() string {
 			var wg sync.WaitGroup
 			for g := 0; g < ng; g++ {
@@ -325,7 +327,11 @@ func (w *c10World) line(c *Ctx, in string) {
 					for i := 0; i < each; i++ {
 						id := uint32(0x0b000000 + g*0x1000 + i)
 						key, iv := rr.Bytes(32), rr.Bytes(16)
-						handlers.VerifParseAgentRequest(bw.ts, initPackage(id, id, key, iv, trickyInfo(rr)), "10.0.0.7")
+						if _, ok := handlers.VerifParseAgentRequest(bw.ts, initPackage(id, id, key, iv, trickyInfo(rr)), "10.0.0.7"); ok {
+							ackMu.Lock()
+							acked = append(acked, fmt.Sprintf("%08x", id))
+							ackMu.Unlock()
+						}
 						if a := bw.ts.AgentInstance(int(id)); a != nil {
 							for k := 0; k < 3; k++ {
 								b := append(append([]byte{}, key...), iv...)
@@ -343,7 +349,9 @@ func (w *c10World) line(c *Ctx, in string) {
 		out := fmt.Sprintf("%s %s %s", res, w.live(), w.restored())
 		w.realWorld = saved
 		bw.close()
-		c.Emit("%s => %s mid=-", in, out)
+		// the registrations that were acknowledged: what a restart must bring back (the live session table is appended to
+		// without synchronisation and can itself lose an entry under this load - that is not persistence's business)
+		c.Emit("%s => %s mid=- acked=%s", in, out, canon(acked))
 	case "tladd": // tladd <namehex> smb|http: a listener started through the teamserver (which persists it)
 		name := string(unhx(parts[1]))
 		w.do(c, in, func() {
